@@ -65,10 +65,10 @@ def judge(W, run, trace):
     # ---- public table: per-event outcomes and final digest vs reference, then counterfactual ----
     suspicious = False
     for i, (nid, ev) in enumerate(run["events"]):
-        if ev[0] in REPLICA_KINDS and ev[1] == "public":
+        if ev[0] in REPLICA_KINDS and (ev[0] == "import" or ev[1] == "public"):
             if outcomes[i] != W.ref_outcome(ev):
                 suspicious = True
-        elif ev[0] in ("init", "import") and (ev[0] == "import" or ev[1] == "public"):
+        elif ev[0] == "init" and ev[1] == "public":
             if outcomes[i] != "ok":
                 suspicious = True
     for nid, d in trace["pub"].items():
